@@ -64,6 +64,21 @@ def loadCase (p : Profile) (t : List String) : String :=
       (load p (n == "1") (unhex hx))
   | _ => "bad-case"
 
+/-- LOADBIG <declared> <reserved> <hex of the last 8 bytes>: the closed form of `load` (`C02.load_eq_closed`) -/
+def loadbigCase (t : List String) : String :=
+  match t with
+  | [_, d, r, hx] =>
+    let declared := d.toNat!
+    let tail := unhex hx
+    -- a declared size of 8 makes the header its own "last 8 bytes"
+    let (w0, w1) := if declared ≥ 16 then (le32 tail 0, le32 tail 4) else (declared, r.toNat!)
+    resStr (fun
+      | .error (.memory e) => s!"err:{memErrStr e}"
+      | .error .noEndTag => "err:NoEndTag"
+      | .ok l => s!"ok start={l.start} end={l.end} total={l.total}")
+      (loadClosed declared w0 w1)
+  | _ => "bad-case"
+
 def itemStr (k : HK) (buf : Bytes) (it : Item) : String :=
   s!"item({it.off},{it.typ},{it.size},{it.pl},{it.off + k.hsize},{hex64 (fnv (slice buf (it.off + k.hsize) it.pl))})"
 
@@ -230,6 +245,8 @@ def specFind (t : List String) : String :=
 /-- CAST <code> <size>: user-defined tag types of the harness (`sK`: K extra words; `dKeE`: K words then a tail of E-byte elements) -/
 def castDesc (code : String) : Option TyDesc :=
   let cs := code.toList
+  if code == "a16s" then some { sizedDesc 32 with align := 16 } else
+  if code == "a16d" then some { dstDesc 16 16 with align := 16 } else
   match cs with
   | 's' :: k => some (sizedDesc (8 + 4 * (String.ofList k).toNat!))
   | 'd' :: k :: 'e' :: e =>
@@ -429,6 +446,7 @@ def specHandle (line : String) : String :=
     match f with
     | "REF" => specRef t
     | "LOAD" => specLoad t
+    | "LOADBIG" => loadbigCase t
     | "WALK" => specWalk t
     | "RND" => specRnd t
     | "FBT" => specFbt t
@@ -470,6 +488,7 @@ def handle (p : Profile) (line : String) : String :=
     match f with
     | "REF" => refCase p t
     | "LOAD" => loadCase p t
+    | "LOADBIG" => loadbigCase t
     | "WALK" => walkCase p t
     | "RND" => rndCase p t
     | "FBT" => fbtCase t
